@@ -38,7 +38,11 @@ func runC31lib(t *testing.T, k c31lib, prefix []int) explore.ExecResult {
 		c.SetResponder(func(p refsn.Pkt, n int) [][]byte {
 			switch p.Type {
 			case refsn.CONNECT:
-				switch s.Choose(3, "gateway on CONNECT") {
+				switch s.Choose(4, "gateway on CONNECT") {
+				case 3:
+					// a gateway asking for (more) authentication: a client without a user has nothing to answer with
+					log = append(log, "AUTH(continue) request, CONNACK")
+					return [][]byte{refsn.Pkt{Type: refsn.AUTH, Reason: 0x18, Str: "PLAIN"}.Encode(), refsn.Pkt{Type: refsn.CONNACK}.Encode()}
 				case 1:
 					log = append(log, "CONNECT ignored")
 					return nil
@@ -163,7 +167,7 @@ func TestC31lib(t *testing.T) {
 	n, _ := rep.Coverage["schedules"].(int)
 	rep.Coverage["evaluations"] = n
 	rep.Coverage["distinct_nontrivial"] = rep.Coverage["states"]
-	rep.Coverage["rule"] = "library part: Connect() of the real client (RetryCount 2) configured without user / with user and password / with user only / with a password but no user, with and without a will, against a scripted gateway that ignores or answers each CONNECT attempt (all patterns, also through the will exchange), all thread interleavings of the call; two configurations continue with a sleep cycle and a second Connect() (the CONNECT that returns the client to active): a client without a user never sends AUTH; with a user every CONNECT datagram is immediately followed by AUTH(PLAIN) with exactly the configured credentials"
+	rep.Coverage["rule"] = "library part: Connect() of the real client (RetryCount 2) configured without user / with user and password / with user only / with a password but no user, with and without a will, against a scripted gateway that ignores or answers each CONNECT attempt (also with an AUTH request of its own) (all patterns, also through the will exchange), all thread interleavings of the call; two configurations continue with a sleep cycle and a second Connect() (the CONNECT that returns the client to active): a client without a user never sends AUTH; with a user every CONNECT datagram is immediately followed by AUTH(PLAIN) with exactly the configured credentials"
 	rep.Assumptions = []string{"virtual time"}
 	rep.Finish()
 }
